@@ -19,13 +19,19 @@ SelfDecl == {"self.v", "self.sa", "self.part", "self.part[0]", "self.part[1]", "
 CDecl == {"c.one", "c.one.tags", "c.one.tags[0]", "c.one.tags[1]", "c.one.v", "c.two", "c.two.tags", "c.two.v"}
 SelfC == {"self.tags", "self.v"}
 
+\* placement 3: two blocks d "one" and d "two"; the cursor is in a nested block `inner` of d "two".  From inside a top-level
+\* block neither that block nor anything declared in it is offered by its absolute address (outer-block exclusion of
+\* Targets.MatchWalk: a reference from a block to itself is a cycle) - whatever the nesting depth of the cursor.
+DOne == {"d.one", "d.one.tags", "d.one.tags[0]", "d.one.tags[1]"}
+
 IsPrefixStr(p, s) == Len(p) <= Len(s) /\ SubSeq(s, 1, Len(p)) = p
 \* x is a proper descendant of d:  d followed by "." or "["
 Descends(x, d) == Len(x) > Len(d) /\ SubSeq(x, 1, Len(d)) = d /\ SubSeq(x, Len(d) + 1, Len(d) + 1) \in {".", "["}
 
 \* declarations visible from the cursor: env = [level, self : BOOLEAN, edited : the address texts of the attribute being edited]
 Visible(env) ==
-  (IF env.level = 2 THEN LocDecl \cup CDecl \cup (IF env.self THEN SelfC ELSE {})
+  (IF env.level = 3 THEN LocDecl \cup DOne ELSE
+   IF env.level = 2 THEN LocDecl \cup CDecl \cup (IF env.self THEN SelfC ELSE {})
    ELSE (LocDecl \cup (IF env.level = 1 THEN BDecl ELSE {})) \cup (IF env.level = 1 /\ env.self THEN SelfDecl ELSE {})) \ env.edited
 
 \* conv : address text -> BOOLEAN (does the declared type convert to the expected one) - from cty, via the harness
